@@ -70,6 +70,8 @@ ChalGroupCheck(s, keys, contrib, vg, pr, sp, entry) ==
              /\ Norm(clist[i].lbound) = NONE => Norm(clist[i].bound) = NONE
              /\ vg.deltas[i] = 0
         /\ anyContrib => (vg.pt = pr.pt /\ sp = pr.pre)
+        \* IPA: the point enters the round challenges and the final-key check even for the zero polynomial
+        /\ s = "ipa" => vg.pt = pr.pt
       \* IPA batch_check has no round-count guard.  Rounds removed from / appended to an HONEST
       \* proof break the round-commitment equation of succinct_check (final key and c belong to the
       \* full folding), so the model answers "reject" (pr.muts # {}).  A proof genuinely produced
